@@ -66,12 +66,15 @@ let rec op_of_sexp (x : Sexp.t) : cx_op * bool (* lit(array) consistent with its
   | List [Atom "arrsym"; s; iw; dw] -> (CoArraySymbol (name s, r iw, r dw), true)
   | List [Atom "symbv"; n; w] -> (CoSymbol (r n, CtBV (r w)), true)
   | List [Atom "symarr"; n; iw; dw] -> (CoSymbol (r n, CtArr (r iw, r dw)), true)
-  | List [Atom "lit"; w; ws; _; _] -> (CoBvLit (r w, words ws), true)
+  | List (Atom "lit" :: w :: ws :: _) -> (CoBvLit (r w, words ws), true)
   | List [Atom "bitvecval"; v; w] -> (CoBitVecVal (r v, r w), true)
   | List [Atom "zero"; w] -> (CoZero (r w), true)
   | List [Atom "one"; w] -> (CoOne (r w), true)
   | List [Atom "ones"; w] -> (CoOnes (r w), true)
   | List [Atom "zeroarr"; iw; dw] -> (CoZeroArray (r iw, r dw), true)
+  | List [Atom "litarr"; _; _; List (Atom "dense" :: _); List [Atom "order"]] ->
+      (* nothing was stored: baa's dense -> sparse conversion panicked inside Context::lit *)
+      (CoLitArrUnconvertible, true)
   | List [Atom "litarr"; iw; dw; input; List (Atom "order" :: order)] ->
       let (d, es, ok) = litarr_order iw dw input order in
       (CoLitArr (r iw, value dw d, List.map (fun (i, v) -> (value iw i, value dw v)) es), ok)
@@ -111,7 +114,7 @@ let rec op_tag (x : Sexp.t) : string =
 let rec call_text (x : Sexp.t) : string =
   match x with
   | Sexp.List [Sexp.Atom "bld"; o] -> call_text o
-  | Sexp.List [Sexp.Atom "lit"; w; ws; _; _] -> Sexp.to_string (Sexp.List [Sexp.Atom "lit"; w; ws])
+  | Sexp.List (Sexp.Atom "lit" :: w :: ws :: _) -> Sexp.to_string (Sexp.List [Sexp.Atom "lit"; w; ws])
   | _ -> Sexp.to_string x
 
 (* ---- nodes <-> S-expressions (same shapes as harness node_dump) *)
@@ -320,17 +323,23 @@ let handle (x : Sexp.t) : string =
     let explained = ref [] in
     List.iter (fun o ->
         match o with
-        | Sexp.List [Sexp.Atom "lit"; w; ws; Sexp.Atom route; _] | Sexp.List [Sexp.Atom "bld"; Sexp.List [Sexp.Atom "lit"; w; ws; Sexp.Atom route; _]] ->
+        | Sexp.List (Sexp.Atom "lit" :: w :: ws :: Sexp.Atom route :: _) | Sexp.List [Sexp.Atom "bld"; Sexp.List (Sexp.Atom "lit" :: w :: ws :: Sexp.Atom route :: _)] ->
             let w = fnum w and ws = words ws in
             if not (canonical w ws) then begin
-              (* every way of shifting left by a whole number of words is one class *)
-              let route =
-                let n = String.length route in
-                if n >= 9 && String.sub route (n - 9) 9 = "shl_words" then "shl-by-whole-words" else route in
+              (* the value came straight out of baa's shift_left by a whole number of words (recorded dependency
+                 defect); the same through patronus' own folder / evaluator keeps its route name *)
+              let route = if route = "shl_words" then "baa-shift_left-by-whole-words" else route in
               dirty := ((w, ws), route) :: !dirty;
               explained := ("noncanonical-literal-words:" ^ route, Sexp.to_string o) :: !explained
             end
         | _ -> ()) ops_s;
+    (* a panic inside baa while Context::lit converts a dense array value: not a reference problem, but a
+       crash reachable through the public builder API; recorded with its location *)
+    List.iter2 (fun o r ->
+        match o, r with
+        | Sexp.List (Sexp.Atom "litarr" :: _), Sexp.List [Sexp.Atom "p"; loc] ->
+            explained := ("panic@" ^ Sexp.atom loc ^ ":lit(array)", Sexp.to_string o) :: !explained
+        | _ -> ()) ops_s res_s;
     (* the harness' shadow structural map *)
     let lit_words_of_ref r =
       if r < Array.length final_s then
